@@ -416,3 +416,12 @@ Definition go_index_byte (s : list Z) (b : Z) : Z := go_index_byte_from s b 0.
    between the two parts and forgets none; a new array for f (make) or an append is refused by
    the translator).  What the caller sees in vs afterwards: *)
 Definition go_handback {A : Type} (l spare : list A) : list A := l ++ spare.
+
+(* ---- an iterator that is only ranged over (translator/fn_rest.go) ----
+   A parameter of type iter.Seq[T] on which the function does nothing but `for v := range it` is
+   represented by the SEQUENCE OF VALUES the iterator yields: option (list T); None = the nil
+   function value, whose call is Go's nil-dereference panic.  (An iterator is code: what else it
+   might do while it yields is outside the representation, as for every callback.)  The loop runs
+   over the list; a break or return leaves the rest unconsumed. *)
+Definition go_seq {A : Type} (it : option (list A)) : res (list A) :=
+  match it with Some l => Ok l | None => Panic PNil end.
